@@ -150,6 +150,7 @@ def run(ck):
             ck.spec_violation("unlocked:%s:%s" % (f["file"], f["name"]), "function excluded from the lock-discipline table by an open finding",
                               {"function": f["name"], "file": f["file"]})
     ok_coq = ck.coq_properties()
+    ck._model_unlock()      # no extraction in this check: the shared coq/ tree is not needed any more (other checks may proceed)
     static_fail = census.get("static_failures", [])
     if static_fail:
         ck.notes.append("lock-discipline failures named by the translator's diagnostic walker: " + "; ".join(x["why"] for x in static_fail[:12]))
